@@ -90,6 +90,18 @@ def requests(tier, rng):
                     for i in range(upto + 1, k):
                         v0[i][5] = g2 + 1; v0[i][77] = -g2 - 1
                     add("polyvec::%s::k_make_hint %s %s" % (lv, V(v0), V(v1)), ["poly::%s::make_hint %s %s" % (lv, fmt(x), fmt(y)) for x, y in zip(v0, v1)], "k_make_hint")
+            # saturated rows: 255 / 256 hints in one row, in every row (counts that do not fit a byte)
+            for row in range(k):
+                for full in (255, 256):
+                    v0 = [[0] * 256 for _ in range(k)]; v1 = [[0] * 256 for _ in range(k)]
+                    for j in range(full):
+                        v0[row][j] = g2 + 1 if j % 2 else -g2 - 1
+                    for i in range(k):
+                        if i != row:
+                            v0[i][3] = g2 + 1
+                    add("polyvec::%s::k_make_hint %s %s" % (lv, V(v0), V(v1)), ["poly::%s::make_hint %s %s" % (lv, fmt(x), fmt(y)) for x, y in zip(v0, v1)], "k_make_hint")
+            v0 = [[g2 + 1] * 256 for _ in range(k)]; v1 = [[0] * 256 for _ in range(k)]
+            add("polyvec::%s::k_make_hint %s %s" % (lv, V(v0), V(v1)), ["poly::%s::make_hint %s %s" % (lv, fmt(x), fmt(y)) for x, y in zip(v0, v1)], "k_make_hint")
             # matrix-vector product: rows and columns all different
             mat = [[rpoly(rng, 0, Q - 1) for _ in range(l)] for _ in range(k)]
             v = [rpoly(rng, -9 * Q + 1, 9 * Q - 1) for _ in range(l)]
